@@ -95,7 +95,7 @@ def gen_ops(rng, n_shots, n_calcs, length):
         elif k < 0.78:
             ops.append(["danger", i, c, 450.0, rng.choice([100.0, 300.0, 440.0, 2000.0]), rng.choice([0.5, 3.0])])
         elif k < 0.88:
-            ops.append(["model", i, rng.choice(["multi", "plain", "multi_dicts"])])
+            ops.append(["model", i, rng.choice(["multi", "plain", "multi_dicts", "multi_pooled", "multi_pooled"])])
         elif k < 0.91:
             ops.append(["fire", i, c, 60000.0, 6000.0, rng.random() < 0.5, 0.0])      # beyond reach: RangeError
         elif k < 0.94:
@@ -122,7 +122,12 @@ def outcome(fn):
         return (type(e).__name__, str(e)[:80])
 
 
-def perform(op, shot, calc):
+def pooled_bc_points():
+    """BC points a caller keeps and hands to DragModelMultiBC again and again (given by Mach and by velocity, unsorted)."""
+    return [BCPoint(0.417, V=pb.Velocity.FPS(2800.0)), BCPoint(0.400, Mach=1.2), BCPoint(0.409, V=pb.Velocity.FPS(2000.0))]
+
+
+def perform(op, shot, calc, bcp=None):
     kind = op[0]
     if kind == "fire":
         return lambda: list(calc.fire(shot, Distance.Foot(op[3]), Distance.Foot(op[4]), op[5], op[6]))
@@ -144,6 +149,9 @@ def perform(op, shot, calc):
                 dm = DragModel(0.33, tbl)
             elif op[2] == "multi":
                 dm = DragModelMultiBC([BCPoint(0.3, Mach=2.0), BCPoint(0.25, Mach=1.0)], tbl, 150, 0.3)
+            elif op[2] == "multi_pooled":
+                # the caller's own BC point objects, with bullet dimensions (the model's BC is then the sectional density)
+                dm = DragModelMultiBC(bcp if bcp is not None else pooled_bc_points(), tbl, 168, 0.308, 1.2)
             else:
                 dm = DragModelMultiBC([BCPoint(0.3, Mach=2.0)], pb.TableG7)
             return (dm.BC, [(p.Mach, p.CD) for p in dm.drag_table])
@@ -182,8 +190,8 @@ def mutate(op, shot, shots):
         shot.weapon.twist = Distance.Inch(9.0 * k)
 
 
-def pool_snapshot(shots):
-    return {"shots": [snap(s) for s in shots],
+def pool_snapshot(shots, bcp=None):
+    return {"shots": [snap(s) for s in shots], "bc_points": snap(bcp) if bcp is not None else None,
             "tables": {n: [(p["Mach"], p["CD"]) for p in getattr(pb, "Table" + n)] for n in TABLE_NAMES},
             "globals": snap(monitors.globals_snapshot())}
 
@@ -206,6 +214,8 @@ def check_history(ctx, case):
     ctx.count("shared_objects_in_pool", shared)
     calcs = [Calculator(_config=dict(c)) if c else Calculator() for c in configs]
     ops = gen_ops(rng, len(shots), len(calcs), case["length"])
+    bcp = pooled_bc_points()
+    bcp_objects = list(bcp)      # the same BCPoint objects in a list of our own: the library may reorder the list it is handed, not the points
     ctx.count("histories")
     zero_or_raise = False
     with monitors.quiet():
@@ -224,11 +234,11 @@ def check_history(ctx, case):
             # model: same operation on a deep copy with a brand-new calculator
             twin_shot = copy.deepcopy(shot)
             twin_calc = (Calculator(_config=dict(cfg)) if cfg else Calculator())
-            want = outcome(perform(op, twin_shot, twin_calc))
-            before = pool_snapshot(shots)
+            want = outcome(perform(op, twin_shot, twin_calc, copy.deepcopy(bcp)))
+            before = pool_snapshot(shots, bcp_objects)
             ctx.count("pool_snapshots")
-            got = outcome(perform(op, shot, calc))
-            after = pool_snapshot(shots)
+            got = outcome(perform(op, shot, calc, bcp))
+            after = pool_snapshot(shots, bcp_objects)
             ctx.count("results_compared")
             c = dict(case, op_index=step, op=op)
             if got[0] != "ok":
